@@ -67,6 +67,8 @@ def parse_res(x):
 
 
 def canon_member(name):
+    if name in CLASSES:
+        return name
     cls = name.split("::")[0]
     return SUBOBJ.get(cls, name)
 
@@ -520,7 +522,8 @@ def run(ctx):
         "audited classification of every data member (coq/ApiDefs.v audit): per-transformation / sticky / constant / stack object / scratch; a transformation can only leave per-transformation members dirty",
         "audited: theParserLiaison.setExecutionContext(*ctx) only stores a pointer; SAXParseException derives from SAXException; the other caught classes are unrelated",
         "what a transformation can observe of the transformer is its key (stylesheet, source, visible params, installed functions, indent) and the members classified per-transformation; checked on every run by the correspondence and the independent fresh-transformer oracle",
-        "members of sub-objects (VariablesStack, CountersTable, NodeSorter, allocators) are covered by the hook and by their owner's reset()/clear() call, not by the translator",
+        "members of VariablesStack and CountersTable are generated and classified; members of the other sub-objects (NodeSorter, allocators, caches, object-stack pools) are covered by the hook and by their owner's reset()/clear() call, not by the translator",
+        "VariablesStack::m_currentStackFrameIndex never exceeds the stack size when reset() runs (then the anchored pop() loop brings it to 0); observed through the hook",
     ]
     ok_lib, liblog = core.build_lib("plain")
     if not ok_lib:
@@ -618,7 +621,12 @@ def replay(ctx, path):
         if (a["status"], a["hash"], a["len"], a["msg"]) != (b["status"], b["hash"], b["len"], b["msg"]):
             print("DIFFERENT: reused %s vs fresh %s" % (a, b))
             bad = 1
-    if "reused" in res and res["reused"] and res["reused"][-1]["residue"] not in ("-", "?"):
-        print("RESIDUE: " + res["reused"][-1]["residue"])
-        bad = 1
+    model, ok_m, _ = core.build_model(FAMILY)
+    CLASSES.clear()
+    CLASSES.update(model_classes(model) if ok_m else {})
+    if "reused" in res and res["reused"] and CLASSES:
+        rs = residue_set(res["reused"][-1]["residue"])
+        if rs:
+            print("RESIDUE (per-transformation members that differ from a new transformer): " + ", ".join(sorted(rs)))
+            bad = 1
     return bad
